@@ -4,6 +4,7 @@ import os
 
 import lib
 from lib import gN, gbool, gopt, glist
+from props import c19_enforce
 
 HEADER = "From CJ Require Import Common.Base C19.Model C19.Run.\n"
 NPROBE = 6
@@ -518,7 +519,9 @@ def run_reload_real(ctx, cases):
 
 
 # ------------------------------------------------------------------ concurrent lanes
-CONC_FILES = {"zz_verif_driver_test.go": "c19/config_driver_test.go", "zz_verif_conc_test.go": "c19/conc_driver_test.go"}
+# one set of overlay files for every lane in pkg/station/lib (one compilation of the test package)
+CONC_FILES = {"zz_verif_driver_test.go": "c19/config_driver_test.go", "zz_verif_conc_test.go": "c19/conc_driver_test.go",
+              "zz_verif_enforce_test.go": "c19/enforce_driver_test.go"}
 
 
 def conc_raws():
@@ -608,8 +611,8 @@ def run(ctx):
                        "(key, class) pairs and random records; reload sequences of length <= 3 over valid / malformed-entry / malformed-pattern / "
                        "type-error / syntax-error / unreadable / empty configuration files x valid / malformed / unreadable subnet files; "
                        "non-trivial = hash-distinct case whose start-up reaches a verdict (accepted or a distinct rejection class)")
-    ctx.coq_props()
-    rc_ex, out_ex = ctx.coq_make(["C19/Examples.vo"])
+    ctx.coq_props(props_files=["C19/Props.v", "C19/PropsEnforce.v"])
+    rc_ex, out_ex = ctx.coq_make(["C19/Examples.vo", "C19/ExamplesEnforce.vo"])
     if rc_ex != 0:
         ctx.broken("examples", "non-vacuity examples no longer check: " + out_ex[-400:])
     shipped_ok = shipped_selfcheck(ctx)
@@ -617,7 +620,7 @@ def run(ctx):
     js = []
     for steps, tag in cases:
         js.append({"nprobe": NPROBE, "steps": [{"cfg": cfg_json(f, ctx.rng), "sub": sub_text(s)} for f, s in steps]})
-    rc, out, res = ctx.go_inpkg(".", "pkg/station/lib", {"zz_verif_driver_test.go": "c19/config_driver_test.go"},
+    rc, out, res = ctx.go_inpkg(".", "pkg/station/lib", CONC_FILES,
                                 "^TestVerifC19Config$", js, env={"VERIF_C19_SHIPPED": os.path.join(lib.REPO, "cmd/application/app_config.toml")})
     if res is None or len(res) != len(cases):
         ctx.broken("driver", "Go driver did not produce results: %s" % out[-1200:])
@@ -653,6 +656,7 @@ def run(ctx):
         ctx.broken("correspondence", "model C19.Run and the implementation disagree on %d cases; shortest has %d step(s)" % (len(mm), len(steps)),
                    {"steps": [[list(f), list(s)] for f, s in steps], "observed": r})
     ctx.cov["shipped_ok"] = shipped_ok
+    c19_enforce.run_enforce(ctx, CONC_FILES)
     run_reload_real(ctx, cases)
     ctx.require_kinds(["mainloop/reload/len1", "mainloop/reload/len23", "mainloop/reload/random"])
     run_concurrent(ctx, race=False)
